@@ -125,6 +125,18 @@ CHECKS["C08"] = (
     "DESIGN.md §3 C08",
 )
 
+CHECKS["C07"] = (
+    "exploration",
+    "immutability monitor (snapshot of every live frozen instance around every operation) + rejection oracle for in-place attempts + twin differential (same module materialised frozen and non-frozen, same operations, results compared)",
+    "Generated modules are materialised twice (as declared frozen - directly, via a spec subclass, via a plain subclass, or with a "
+    "frozen nested Leaf class - and with the frozen flags removed). Every public operation is run on the frozen world with a snapshot "
+    "of every frozen instance before and after (must be identical); in-place attempts must raise FrozenInstanceError whenever the twin "
+    "would have changed state; every other operation must give the same outcome class and alpha-equal result/receiver state as the "
+    "non-frozen twin, the frozen result being a distinct object.",
+    "Trusted: snapshot walker and alpha abstraction; deepcopy(frozen) may return the same object.",
+    "DESIGN.md §3 C07",
+)
+
 NOT_YET = {}
 
 
